@@ -246,6 +246,12 @@ theorem antiwindup_outside_implies_returning (hl : c.noLower = false) (hu : c.no
     by_cases h3 : (0 : ℚ) ≤ s.e <;> by_cases h4 : s.e ≤ (0 : ℚ) <;>
     simp [h1, h2, h3, h4] at hout ⊢ <;> linarith
 
+/-- non-vacuity of `antiwindup_outside_implies_returning`: state `3` above `upper = 2`, derivative `-1` -/
+example : upperEff stdCfg Call.plain 3 (2 : ℚ) <
+    (awCheckEq stdCfg Call.plain 4 0 true (⟨-1, 2, true, false, false, false, false, 3, -1⟩ : Aw ℚ) 3).x := by
+  simp [awCheckEq, awX, awZi, awZu, awZl, lowerEff, upperEff, adjU, adjL, sgn, stdCfg, Call.plain]
+  norm_num
+
 /-- **Defect, for all inputs**: `AntiWindup.check_eq` never consults `enable` — a disabled anti-windup
 limiter clamps exactly like an enabled one (documented: "if not enabled … zu = zl = 0, zi = 1") -/
 theorem antiwindup_ignores_enable (anyPeg : Bool) :
@@ -467,3 +473,267 @@ end sorted
 example : (2 : Nat) ≤ 50 := by decide
 
 end Andes.Discrete
+
+namespace Andes.Delay
+open Andes.Discrete
+
+/-! ## Delay, mode `step` -/
+
+/-- the real buffer after a call sequence -/
+def dlRun (d : Nat) (calls : List (ℚ × ℚ)) : Dl ℚ := calls.foldl (fun s c => stepCall s c.1 c.2) (initStep d)
+/-- the unbounded reference history after the same call sequence -/
+def histRun (d : Nat) (calls : List (ℚ × ℚ)) : Hist := calls.foldl (fun h c => histCall d h c.1 c.2) (histInit d)
+
+theorem refines_foldl (d : Nat) (calls : List (ℚ × ℚ)) : ∀ (s : Dl ℚ) (h : Hist), Refines d s h →
+    Refines d (calls.foldl (fun s c => stepCall s c.1 c.2) s) (calls.foldl (fun h c => histCall d h c.1 c.2) h) ∧
+    (calls ≠ [] → (calls.foldl (fun s c => stepCall s c.1 c.2) s).v =
+      histOut d (calls.foldl (fun h c => histCall d h c.1 c.2) h)) := by
+  induction calls with
+  | nil => intro s h hr; exact ⟨hr, fun h => absurd rfl h⟩
+  | cons c cs ih =>
+    intro s h hr
+    obtain ⟨h1, h2⟩ := refines_step d s h hr c.1 c.2
+    obtain ⟨h3, h4⟩ := ih _ _ h1
+    refine ⟨h3, fun _ => ?_⟩
+    cases cs with
+    | nil => exact h2
+    | cons c' cs' => exact h4 (by simp)
+
+/-- **Delay (step mode)**: for EVERY sequence of `(t, u)` calls — repeated stamps, rewinds, calls at
+`t = 0` in the middle included — the output after the last call is the value `delay` slots before the
+newest slot of the unbounded history (a new slot per advancing stamp; repeats and rewinds overwrite the
+newest slot; `t = 0` re-initialises all slots), and the buffer is the last `delay + 1` slots. -/
+theorem delay_step_spec (d : Nat) (calls : List (ℚ × ℚ)) (hne : calls ≠ []) :
+    (dlRun d calls).v = histOut d (histRun d calls) ∧
+    ∃ pre, (histRun d calls).vals = pre ++ (dlRun d calls).mem ∧ (dlRun d calls).mem.length = d + 1 := by
+  obtain ⟨h1, h2⟩ := refines_foldl d calls _ _ (refines_init d)
+  obtain ⟨pre, hp⟩ := h1.suffix
+  exact ⟨h2 hne, pre, hp, h1.len⟩
+
+/-- strictly advancing stamps -/
+def Advancing : ℚ → List (ℚ × ℚ) → Prop
+  | _, [] => True
+  | last, c :: cs => last < c.1 ∧ Advancing c.1 cs
+
+theorem hist_advancing (d : Nat) (cs : List (ℚ × ℚ)) : ∀ (h : Hist), 0 ≤ h.last → Advancing h.last cs →
+    (cs.foldl (fun h c => histCall d h c.1 c.2) h).vals = h.vals ++ cs.map (·.2) := by
+  induction cs with
+  | nil => intro h _ _; simp
+  | cons c cs ih =>
+    intro h h0 ha
+    obtain ⟨ha1, ha2⟩ := ha
+    have hb : branch c.1 h.last = .adv := by
+      unfold branch
+      have e1 : ¬ c.1 = 0 := by linarith
+      have e2 : ¬ c.1 < h.last := by linarith
+      have e3 : ¬ c.1 = h.last := by linarith
+      simp [zero_lit, e1, e2, e3, ha1]
+    have hstep : histCall d h c.1 c.2 = ⟨c.1, h.vals ++ [c.2]⟩ := by simp [histCall, hb]
+    simp only [List.foldl_cons, hstep]
+    rw [ih ⟨c.1, h.vals ++ [c.2]⟩ (by show (0:ℚ) ≤ c.1; linarith) ha2]
+    simp
+
+/-- the familiar special case: initialised at `t = 0` with `u0`, then `n` strictly advancing steps: the
+history is `u0` (`delay + 1` times) followed by the inputs, so the output is the input `delay` steps ago
+(or `u0` while fewer than `delay` steps have been taken) -/
+theorem delay_step_advancing (d : Nat) (u0 : ℚ) (cs : List (ℚ × ℚ)) (ha : Advancing 0 cs) :
+    (histRun d ((0, u0) :: cs)).vals = List.replicate (d + 1) u0 ++ cs.map (·.2) := by
+  have h0 : histCall d (histInit d) 0 u0 = ⟨0.0, List.replicate (d + 1) u0⟩ := by
+    simp [histCall, histInit, branch, zero_lit]
+  simp only [histRun, List.foldl_cons, h0]
+  rw [hist_advancing d cs ⟨0.0, _⟩ (by show (0:ℚ) ≤ 0.0; norm_num) (by show Advancing (0.0:ℚ) cs; rw [zero_lit]; exact ha)]
+
+example : Advancing 0 [((1 : ℚ), (5 : ℚ)), (2, 7)] := by simp [Advancing]
+
+/-! ## Derivative -/
+
+/-- **Derivative is the backward difference** of the two newest slots over the two newest stamps (values
+below `1e-8` in magnitude are chopped to zero); it is zero at `t = 0` and right after a rewind. -/
+theorem derivative_is_backward_difference (s : Dl ℚ) (tq u : ℚ) :
+    let d := stepCall s tq u
+    ((tq = 0 ∨ d.rewind = true) → (derivCall s tq u).v = 0) ∧
+    (tq ≠ 0 → d.rewind = false →
+      let q := (d.mem.getD 1 0 - d.mem.getD 0 0) / (d.t.getD 1 0 - d.t.getD 0 0)
+      (derivCall s tq u).v = if |q| < 1e-8 then 0 else q) := by
+  intro d
+  have habs : ∀ q : ℚ, pabs q = |q| := by
+    intro q; unfold pabs; rw [zero_lit]
+    split_ifs with h
+    · exact (abs_of_neg h).symm
+    · exact (abs_of_nonneg (not_lt.mp h)).symm
+  constructor
+  · rintro (h | h)
+    · simp [derivCall, derivOut, h, zero_lit]
+    · simp only [derivCall, derivOut]
+      have : (stepCall s tq u).rewind = true := h
+      simp [this, zero_lit]
+  · intro h1 h2
+    have h2' : (stepCall s tq u).rewind = false := h2
+    simp only [derivCall, derivOut, h2', zero_lit, habs]
+    simp [h1]
+    rfl
+
+/-- the buffer of a `Derivative` holds the two newest slots of the unbounded history (instance `delay = 1`
+of the refinement): the difference above is between consecutive slots, for every call sequence -/
+theorem derivative_buffer (calls : List (ℚ × ℚ)) :
+    ∃ pre a b, (histRun 1 calls).vals = pre ++ [a, b] ∧ (dlRun 1 calls).mem = [a, b] := by
+  obtain ⟨h1, _⟩ := refines_foldl 1 calls _ _ (refines_init 1)
+  obtain ⟨pre, hp⟩ := h1.suffix
+  have hl := h1.len
+  match hm : (dlRun 1 calls).mem, hl with
+  | [a, b], _ => exact ⟨pre, a, b, by rw [← hm]; exact hp, rfl⟩
+
+/-! ## Delay, mode `time`; Average -/
+
+/-- linear interpolation reproduces a straight line: replacing the older bracketing sample by the
+interpolated point (what the window trimming does) does not change the interpolant to its right -/
+theorem interp_affine (a b ti x0 x1 : ℚ) (h : x0 ≠ x1) :
+    interp ti x0 x1 (a * x0 + b) (a * x1 + b) = a * ti + b := by
+  unfold interp
+  have : x1 - x0 ≠ 0 := sub_ne_zero.mpr (Ne.symm h)
+  field_simp
+  ring
+
+/-- **Delay (time mode)**, the advancing call that trims the window: the new head stamp is exactly
+`t - delay` and the output is the linear interpolation at `t - delay` between the two samples at
+positions `k`, `k+1`, where `k+1` is the first stamp `≥ t - delay`. -/
+theorem delay_time_spec_partial (delay : ℚ) (s : Dl ℚ) (tq u : ℚ) (k : Nat) (hb : s.bad = false)
+    (hbr : branch tq (lastOr s.t 0.0) = .adv) (hw : delay < tq - headOr (s.t ++ [tq]) 0.0)
+    (hk : firstGe (s.t ++ [tq]) (tq - delay) = k + 1) :
+    let r := timeCall delay s tq u
+    r.bad = false ∧ headOr r.t 0 = tq - delay ∧
+    r.v = interp (tq - delay) ((s.t ++ [tq]).getD k 0.0) ((s.t ++ [tq]).getD (k + 1) 0.0)
+            ((s.mem ++ [u]).getD k 0.0) ((s.mem ++ [u]).getD (k + 1) 0.0) := by
+  intro r
+  have e : r = { t := (tq - delay) :: (s.t ++ [tq]).drop (k + 1),
+                 mem := interp (tq - delay) ((s.t ++ [tq]).getD k 0.0) ((s.t ++ [tq]).getD (k + 1) 0.0)
+                   ((s.mem ++ [u]).getD k 0.0) ((s.mem ++ [u]).getD (k + 1) 0.0) :: (s.mem ++ [u]).drop (k + 1),
+                 v := interp (tq - delay) ((s.t ++ [tq]).getD k 0.0) ((s.t ++ [tq]).getD (k + 1) 0.0)
+                   ((s.mem ++ [u]).getD k 0.0) ((s.mem ++ [u]).getD (k + 1) 0.0),
+                 rewind := false, bad := false } := by
+    show timeCall delay s tq u = _
+    unfold timeCall
+    rw [hb, hbr]
+    simp only [Bool.false_eq_true, if_false, timeAdv]
+    rw [if_pos hw, hk]
+    simp [headOr]
+  rw [e]
+  simp [headOr]
+
+/-- the hypotheses are met by the first trimming step: window `[0]`, call at `t = 1`, delay `1/2` -/
+example : branch (1 : ℚ) (lastOr ([0] : List ℚ) 0.0) = .adv ∧
+    (1 / 2 : ℚ) < 1 - headOr (([0] : List ℚ) ++ [1]) 0.0 ∧ firstGe (([0] : List ℚ) ++ [1]) (1 - 1 / 2) = 0 + 1 := by
+  refine ⟨?_, ?_, ?_⟩
+  · simp [branch, lastOr, zero_lit]
+  · simp [headOr]; norm_num
+  · have : ¬ ((1 : ℚ) - 1 / 2 ≤ 0) := by norm_num
+    simp [firstGe, List.findIdx?_cons, this]; norm_num
+
+/- full statement (NOT proved, and false on the real code when a stamp is repeated or rewound while the
+   newest sample is a bracketing sample — oracle keys `delay-time-stale-interpolation`,
+   `delay-time-window-trimmed-by-rejected-step`): the output equals the piecewise-linear interpolant of the
+   whole slot history at `t - delay`. -/
+
+/-- **Average** is the trapezoidal mean over the stored window; two-sample window (`delay = 1`):
+the mean of the two newest slots -/
+theorem average_two_samples (s : Dl ℚ) (tq m0 m1 t0 t1 : ℚ) (ht : tq ≠ 0) (hne : t0 ≠ t1)
+    (hm : s.mem = [m0, m1]) (hs : s.t = [t0, t1]) : (avgPost s tq).v = (m0 + m1) / 2 := by
+  have : t1 - t0 ≠ 0 := sub_ne_zero.mpr (Ne.symm hne)
+  simp [avgPost, ht, zero_lit, hm, hs, trapSum, lastOr, headOr]
+  field_simp
+  norm_num
+  ring
+
+/-- … and at `t = 0` it is the input itself, the older slots being zeroed -/
+theorem average_at_zero (s : Dl ℚ) (m0 m1 : ℚ) (hm : s.mem = [m0, m1]) :
+    (avgPost s 0).v = m1 ∧ (avgPost s 0).mem = [0, m1] := by
+  simp [avgPost, zero_lit, hm, lastOr, setLast]
+
+/-- the trapezoidal mean of a constant input is that constant (any window with distinct end stamps) -/
+theorem trapSum_const (cst : ℚ) : ∀ (ts : List ℚ), trapSum (ts.map (fun _ => cst)) ts =
+    2 * cst * (lastOr ts 0 - headOr ts 0) := by
+  intro ts
+  induction ts with
+  | nil => simp [trapSum, lastOr, headOr, zero_lit]
+  | cons a ts ih =>
+    cases ts with
+    | nil => simp [trapSum, lastOr, headOr, zero_lit]
+    | cons b ts =>
+      simp only [List.map_cons, trapSum] at ih ⊢
+      rw [ih]
+      simp [lastOr, headOr]
+      ring
+
+theorem average_of_constant (s : Dl ℚ) (tq cst : ℚ) (ht : tq ≠ 0) (hm : s.mem = s.t.map (fun _ => cst))
+    (hspan : lastOr s.t 0 ≠ headOr s.t 0) : (avgPost s tq).v = cst := by
+  have : lastOr s.t 0 - headOr s.t 0 ≠ 0 := sub_ne_zero.mpr hspan
+  simp only [avgPost, zero_lit, hm, trapSum_const]
+  simp [ht]
+  field_simp
+  norm_num
+
+example : lastOr ([0, 1] : List ℚ) 0 ≠ headOr ([0, 1] : List ℚ) 0 := by simp [lastOr, headOr]
+
+/-! ## Sampling -/
+
+section sampling
+variable (trunc : ℚ → ℚ) (interval offset : ℚ) (s : Smp ℚ) (tq u : ℚ)
+
+/-- **Sample and hold**: an advancing call that is not a sampling instant leaves the output (and the
+stored previous output and sample time) untouched -/
+theorem sampling_holds_between_samples (h0 : tq ≠ 0) (hadv : s.lastT < tq)
+    (hno : ¬ interval < tq - offset - s.lastT) :
+    (smpCall trunc interval offset s tq u).v = s.v ∧ (smpCall trunc interval offset s tq u).lastV = s.lastV ∧
+    (smpCall trunc interval offset s tq u).lastT = s.lastT := by
+  simp [smpCall, h0, zero_lit, hadv, hno]
+
+/-- … over any number of such calls -/
+theorem sampling_holds_over_sequence (calls : List (ℚ × ℚ)) :
+    ∀ s : Smp ℚ, (∀ c ∈ calls, c.1 ≠ 0 ∧ s.lastT < c.1 ∧ ¬ interval < c.1 - offset - s.lastT) →
+    (calls.foldl (fun s c => smpCall trunc interval offset s c.1 c.2) s).v = s.v := by
+  induction calls with
+  | nil => intro s _; rfl
+  | cons c cs ih =>
+    intro s h
+    obtain ⟨h0, h1, h2⟩ := h c (by simp)
+    obtain ⟨e1, _, e3⟩ := sampling_holds_between_samples trunc interval offset s c.1 c.2 h0 h1 h2
+    simp only [List.foldl_cons]
+    rw [ih _ (fun c' hc' => by rw [e3]; exact h c' (by simp [hc'])), e1]
+
+/-- a sampling instant takes the input and remembers the previous output; a rewind restores it -/
+theorem sampling_samples_and_rewinds (h0 : tq ≠ 0) :
+    (s.lastT < tq → interval < tq - offset - s.lastT →
+      (smpCall trunc interval offset s tq u).v = u ∧ (smpCall trunc interval offset s tq u).lastV = s.v) ∧
+    (tq < s.lastT → (smpCall trunc interval offset s tq u).v = s.lastV ∧
+      (smpCall trunc interval offset s tq u).rewind = true) := by
+  constructor
+  · intro h1 h2; simp [smpCall, h0, zero_lit, h1, h2]
+  · intro h1
+    have : ¬ s.lastT < tq := by linarith
+    have h3 : ¬ tq = s.lastT := by linarith
+    simp [smpCall, h0, zero_lit, this, h3, h1]
+
+/-- **While time stands still at a sampling instant the output follows the input** (the later Newton
+iterations of the step that sampled) — true when the stored sample time is the time itself … -/
+theorem sampling_follows_input_at_sample_time_partial (h0 : tq ≠ 0) (hadv : s.lastT < tq)
+    (hs : interval < tq - offset - s.lastT) (htr : trunc tq = tq) (u2 : ℚ) :
+    (smpCall trunc interval offset (smpCall trunc interval offset s tq u) tq u2).v = u2 := by
+  have e : smpCall trunc interval offset s tq u = ⟨u, s.v, tq, false⟩ := by
+    simp [smpCall, h0, zero_lit, hadv, hs, htr]
+  rw [e]
+  simp [smpCall, h0, zero_lit]
+end sampling
+
+example : (fun x : ℚ => x) 3 = 3 ∧ (0 : ℚ) < 3 ∧ (1 : ℚ) < 3 - 0 - 0 := by norm_num
+
+/-- **Counterexample (real defect)**: `_last_t` is an INTEGER array, `self._last_t[0] = dae_t` truncates.
+Interval 1, sample taken at `t = 3/2` (stored as `1`): the next iteration at the same `t = 3/2` is treated
+as an advancing call that is not a sampling instant, so the output stays at the first iterate's value `5`
+instead of following the input `7`. -/
+theorem sampling_last_t_truncated :
+    (smpCall (fun x => (⌊x⌋ : ℚ)) 1 0 (smpCall (fun x => (⌊x⌋ : ℚ)) 1 0 smpInit (3 / 2) 5) (3 / 2) 7).v = 5 := by
+  have hfl : ⌊(3 / 2 : ℚ)⌋ = 1 := by rw [Int.floor_eq_iff]; norm_num
+  simp [smpCall, smpInit, zero_lit, hfl]
+  norm_num
+
+end Andes.Delay
